@@ -9,7 +9,7 @@ CONSTANTS
   HostLLA = "hostlla"
   AllNodes = "allnodes"
   LLAs = {"l1", "l2", "l3", "l4"}
-  GUAs = {"g1", "g2"}
+  GUAs = {"g1", "g2", "ula1", "unspec6", "loop6", "mc5", "map4", "allnodes"}
   V4s = {"a1", "a2"}
   NoIP = "noip"
   RouterIPs = {"r1", "r2", "r3"}
